@@ -432,7 +432,7 @@ impl Space for ZonedRounding {
 pub fn spaces(env: &Env) -> Vec<Box<dyn Space>> {
     let zs = zones(env.tier);
     let np = zs.iter().map(|z| instants(z).len()).max().unwrap_or(0);
-    vec![Box::new(Adds { zones: zs.clone(), np, durs: add_durations() }), Box::new(Pairs { zones: zs.clone(), np }), Box::new(ZonedRounding { zones: zs, np })]
+    vec![Box::new(Adds { zones: zs.clone(), np, durs: add_durations() }), Box::new(Pairs { zones: zs.clone(), np }), Box::new(ZonedRounding { zones: zs, np }), Box::new(crate::checks::realzones::RealZones::new("c14", env.tier))]
 }
 
 pub fn run(env: &Env) -> i32 {
